@@ -779,7 +779,25 @@ impl World {
     /// body of one scripted client task
     pub fn client(&self, c: &Conn) {
         let id = c.id;
-        let req = &c.request.0;
+        // a revalidating client copies the validators of an earlier response into its request
+        let mut revalidated: Option<Vec<u8>> = None;
+        if let Some(k) = c.revalidate {
+            let earlier = self.with(|st| st.conns.get(k).map(|x| x.outbound.clone()).unwrap_or_default());
+            if let Some(r) = crate::wire::parse_response(&earlier).resp {
+                let mut v = c.request.0.clone();
+                if let Some(t) = r.get("ETag") {
+                    v = crate::gen::real::with_header(&v, "If-None-Match", t.trim());
+                }
+                if let Some(t) = r.get("Last-Modified") {
+                    v = crate::gen::real::with_header(&v, "If-Modified-Since", t.trim());
+                }
+                if v != c.request.0 {
+                    self.with(|st| st.reach("client_revalidates_with_server_validators"));
+                    revalidated = Some(v);
+                }
+            }
+        }
+        let req = revalidated.as_ref().unwrap_or(&c.request.0);
         // split the request into the scripted segments
         let mut segs: Vec<(u32, &[u8])> = vec![];
         if c.delivery.is_empty() {
